@@ -134,4 +134,33 @@ def satoshiToMbtc (n : Int) : Dec :=
 
 def mbtcToSatoshi (d : Dec) : Int := (Dec.mul d ⟨100000, 0⟩).toInt
 
+/-- `Decimal("ddd.ddd")` for plain decimal notation (optional sign, optional fraction) -/
+def Dec.ofString? (s : String) : Option Dec :=
+  let (neg, body) := match s.toList with
+    | '-' :: r => (true, r)
+    | '+' :: r => (false, r)
+    | r => (false, r)
+  let ip := body.takeWhile (· ≠ '.')
+  let rest := body.dropWhile (· ≠ '.')
+  let fp := rest.drop 1
+  if (ip ++ fp).isEmpty ∨ !(ip ++ fp).all Char.isDigit then none
+  else
+    let c : Nat := (ip ++ fp).foldl (fun (acc : Nat) ch => acc * 10 + (ch.toNat - 48)) 0
+    some { coeff := if neg then -(c : Int) else c, exp := -(fp.length : Int) }
+
+/-! ### create_tx pairing: inputs are built from the spendables in order and `unspents` is that same list -/
+
+structure Spendable where
+  value : Int
+  script : Bytes
+  txHash : Bytes
+  txOutIndex : Nat
+  deriving DecidableEq, Repr
+
+/-- `spendable.tx_in()` keeps the outpoint -/
+def Spendable.txIn (s : Spendable) : In := ⟨s.txHash, s.txOutIndex⟩
+
+/-- the `(txs_in, unspents)` pair `create_tx` builds -/
+def createTxPairing (sp : List Spendable) : List In × List Spendable := (sp.map Spendable.txIn, sp)
+
 end Pycoin.Value
